@@ -183,5 +183,51 @@ func TestVerifC17Inputs(t *testing.T) {
 			}
 		}
 	}
+	// paths that cannot be read at all: below a regular file, a component longer than any file
+	// system allows, a directory, a dangling link. Every entry point must come back with an error
+	// (or an empty result) — "completes without a crash"
+	oddDir := filepath.Join(scratch, "odd")
+	os.MkdirAll(filepath.Join(oddDir, "dir.go"), 0o755)
+	os.WriteFile(filepath.Join(oddDir, "plain.go"), c17Source(200), 0o644)
+	os.Symlink(filepath.Join(oddDir, "nowhere.go"), filepath.Join(oddDir, "dangling.go"))
+	odd := []struct{ name, path string }{
+		{"below-a-regular-file", filepath.Join(oddDir, "plain.go", "inner.go")},
+		{"component-too-long", filepath.Join(oddDir, strings.Repeat("n", 300)+".go")},
+		{"a-directory", filepath.Join(oddDir, "dir.go")},
+		{"dangling-symlink", filepath.Join(oddDir, "dangling.go")},
+		{"missing", filepath.Join(oddDir, "missing.go")},
+	}
+	for _, od := range odd {
+		for _, e := range entries {
+			idx++
+			if !vh.Mine(idx) {
+				continue
+			}
+			var o c17Outcome
+			panicked := ""
+			func() {
+				defer func() {
+					if p := recover(); p != nil {
+						panicked = fmt.Sprint(p)
+					}
+				}()
+				o = e.run(od.path)
+			}()
+			r.Eval()
+			key := fmt.Sprintf("input/%s/path=%s", e.name, od.name)
+			r.Nontrivial(key)
+			if panicked != "" {
+				r.Violate(key+"/panic", fmt.Sprintf("%s on a path %s (%s) panicked: %s", e.name, od.name, c17ShortPath(od.path), panicked), map[string]interface{}{"entry": e.name, "path": od.name})
+			}
+			_ = o
+		}
+	}
 	r.Count("limit_bytes", int64(limit))
+}
+
+func c17ShortPath(p string) string {
+	if len(p) > 120 {
+		return p[:60] + "…" + p[len(p)-40:]
+	}
+	return p
 }
